@@ -1,5 +1,5 @@
 SPECIFICATION TSpec
-CONSTANTS NKey = 8 NName = 8 NInst = 8 MaxChecks = 64 DevNameCache = FALSE Plain = TRUE
+CONSTANTS NKey = 8 NName = 8 NInst = 8 MaxChecks = 64 DevNameCache = FALSE DevVerdictCache = FALSE Plain = TRUE
 CONSTRAINT Mark
 POSTCONDITION Post
 CHECK_DEADLOCK FALSE
